@@ -135,6 +135,8 @@ class Interp:
         self.steps = 0
         self.max_steps = max_steps
         self.notes = set()
+        self.float_methods = []
+        self.concrete_lib = False
 
     # ------------------------------------------------------------ expressions
     def ev(self, n, env):
@@ -175,6 +177,14 @@ class Interp:
             raise Unsupported("attribute %s of %r" % (n.attr, base))
         raise Unsupported("attribute %s" % text(n))
 
+    def e_Dict(self, n, env):
+        out = {}
+        for k, v in zip(n.keys, n.values):
+            if k is None:
+                raise Unsupported("dict unpacking")
+            out[self.ev(k, env)] = self.ev(v, env)
+        return out
+
     def e_List(self, n, env):
         return [self.ev(e, env) for e in n.elts]
 
@@ -192,6 +202,10 @@ class Interp:
         idx = self.ev(n.slice, env)
         if isinstance(idx, float) and idx.is_integer():
             idx = int(idx)
+        if isinstance(base, dict):
+            if idx in base:
+                return base[idx]
+            raise DomainError("missing key %r in %s" % (idx, text(n)))
         if not isinstance(idx, int) or not isinstance(base, (list, tuple)):
             raise Unsupported("subscript %s" % text(n))
         try:
@@ -313,6 +327,8 @@ class Interp:
         op = type(n.ops[0])
         if op in (ast.Is, ast.IsNot):
             return (a is b) == (op is ast.Is)
+        if a is None or b is None:
+            return None        # an undecided truth value compared with something
         if op in (ast.In, ast.NotIn):
             if isinstance(b, (list, tuple, dict, str)):
                 return (a in b) == (op is ast.In)
@@ -430,8 +446,15 @@ class Interp:
                 return None
             if isinstance(recv, (I, Aff)) or isinstance(recv, (int, float)):
                 # methods that plain Python floats do not have
+                self.float_methods.append((n, short))
+                if short in ("any", "all") and not args:
+                    t = self.truth(recv)      # numpy-scalar semantics, so that the analysis can go on
+                    return t
                 raise DomainError("method .%s() called on a float value (%s): plain Python floats have no such method" % (short, text(n.func.value)))
         if nm.startswith(("np.", "numpy.", "math.")) or nm in NP_FUNCS or nm in ("exp", "sqrt", "cos", "sin", "fabs", "log"):
+            if short in NP_FUNCS and len(args) == 1 and self.concrete_lib and not isinstance(args[0], (I, Aff)):
+                f = NP_FUNCS[short]
+                return abs(args[0]) if f == "abs" else getattr(math, f)(args[0])
             if short in NP_FUNCS and len(args) == 1:
                 v = args[0]
                 f = NP_FUNCS[short]
